@@ -185,7 +185,7 @@ func oracleC20(c *DriveCtx, res *Result) {
 				}
 			}
 		case "handler":
-			raw, ok := res.Before[t.Srv]["https://"+t.Srv+t.Req.Path]
+			raw, ok := res.Before[t.Srv]["https://"+t.Srv+t.Req.Path] // (C20 worlds are always served over https)
 			if !ok {
 				s.probe("c20-missing-value")
 				if srv.Spec.GetMissing == "nil" {
